@@ -13,10 +13,13 @@
       (day, second) is strictly increasing.
     * the model of `excel_to_date_time_object` instantiated with EXACT arithmetic (`Fix`, unit
       1/86400 day): serial ↦ date-time is the inverse, to the second.
+  In other modules of this namespace: `Umya/Thm/C18Float.lean` (the same round trip and strict
+  monotonicity for every float instance that satisfies the standard model of binary64 arithmetic,
+  `StdModel`), `Umya/Thm/C18Display.lean` (display of date-formatted cells for `SimpleDateCode`s).
   What is NOT proved: anything about the IEEE-754 `Float` instance that the driver executes and
-  that corresponds to the Rust `f64` code (assumption "float step", see tools/props.d/C18.py);
-  chrono's calendar (represented by the reference calendar); the display path (tied by the
-  correspondence stream and the harness oracle only).
+  that corresponds to the Rust `f64` code — that it satisfies `StdModel` is an assumption
+  (see tools/props.d/C18.py); chrono's calendar and `strftime` (represented by the reference
+  calendar and `Umya.Date.strftime`).
 -/
 import Umya.Lemmas.Date
 import Umya.Lemmas.TablesGen
